@@ -274,7 +274,7 @@ func ctrlPkgs(pc *pCase) []string {
 	}
 	out := []string{}
 	for p := range pk {
-		out = append(out, "./"+p)
+		out = append(out, "./"+pkgDir(p))
 	}
 	sort.Strings(out)
 	return out
@@ -298,7 +298,7 @@ func defaultGlobs(pc *pCase) []string {
 	}
 	seen := map[string]bool{}
 	add := func(pkg, file string) {
-		g := "./" + pkg + "/" + file + ".go"
+		g := "./" + pkgDir(pkg) + "/" + file + ".go"
 		if !seen[g] {
 			seen[g] = true
 			out = append(out, g)
@@ -440,7 +440,7 @@ func (r *runner) runCase(work string, pc *pCase, plan pipePlan, keep bool) *case
 		pk = append(pk, ctrlPkgs(pc)...)
 		pkT := map[string]bool{}
 		for _, t := range pc.Types {
-			pkT["./"+t.Pkg] = true
+			pkT["./"+pkgDir(t.Pkg)] = true
 		}
 		for p := range pkT {
 			found := false
